@@ -35,6 +35,19 @@ fn install_noise(seed: u64) {
     })));
 }
 
+/// a log argument whose `Display` logs another record through the same writer
+struct Nested<'a> {
+    w: &'a flexi_logger::writers::ArcFileLogWriter,
+    inner: String,
+    outer: String,
+}
+impl std::fmt::Display for Nested<'_> {
+    fn fmt(&self, f: &mut std::fmt::Formatter<'_>) -> std::fmt::Result {
+        LogWriter::write(&**self.w, &mut DeferredNow::new(), &Record::builder().level(log::Level::Info).args(format_args!("{}", self.inner)).build()).unwrap();
+        write!(f, "{}", self.outer)
+    }
+}
+
 pub fn line_for(t: usize, k: usize, len: usize) -> Vec<u8> {
     let mut s = format!("t{t}-{k}:");
     while s.len() + 1 < len {
@@ -49,6 +62,7 @@ pub fn execute(ctx: &mut Ctx, lines: &[String]) -> Vec<(Vec<String>, Vec<String>
     let mut eff: Vec<String> = Vec::new();
     let mut ans: Vec<String> = Vec::new();
     let mut threads: Vec<Vec<Vec<u8>>> = Vec::new();
+    let mut nested: Vec<Vec<bool>> = Vec::new();
     let mut mode = "sync".to_string();
     let mut spec: Option<SpecP> = None;
     let mut cfg: Option<CfgP> = None;
@@ -70,8 +84,12 @@ pub fn execute(ctx: &mut Ctx, lines: &[String]) -> Vec<(Vec<String>, Vec<String>
             ["THREAD", tid, ls @ ..] => {
                 let tid: usize = tid.parse().unwrap();
                 while threads.len() <= tid { threads.push(vec![]); }
-                threads[tid] = ls.iter().map(|h| unhex(h).unwrap()).collect();
-                eff.push(line.clone());
+                // `R<hex>`: this line is logged from INSIDE the formatting of the thread's next line
+                // (a `Display` argument that logs: the recursion fallback of the writer)
+                while nested.len() <= tid { nested.push(vec![]); }
+                nested[tid] = ls.iter().map(|h| h.starts_with('R')).collect();
+                threads[tid] = ls.iter().map(|h| unhex(h.trim_start_matches('R')).unwrap()).collect();
+                eff.push(format!("THREAD {tid} {}", ls.iter().map(|h| h.trim_start_matches('R')).collect::<Vec<_>>().join(" ")));
                 ans.push("ok".into());
             }
             ["SPEC", rest @ ..] => { spec = Some(parse_spec(rest)); }
@@ -95,12 +113,22 @@ pub fn execute(ctx: &mut Ctx, lines: &[String]) -> Vec<(Vec<String>, Vec<String>
                 for (tid, ls) in threads.iter().enumerate() {
                     let w = w.clone();
                     let ls = ls.clone();
+                    let flags = nested.get(tid).cloned().unwrap_or_default();
                     let barrier = barrier.clone();
                     joins.push(std::thread::Builder::new().name(format!("worker{tid}")).spawn(move || {
                         barrier.wait();
-                        for l in ls {
-                            let payload = String::from_utf8(l[..l.len() - 1].to_vec()).unwrap();
-                            LogWriter::write(&*w, &mut DeferredNow::new(), &Record::builder().level(log::Level::Info).args(format_args!("{}", payload)).build()).unwrap();
+                        let text = |l: &Vec<u8>| String::from_utf8(l[..l.len() - 1].to_vec()).unwrap();
+                        let mut i = 0;
+                        while i < ls.len() {
+                            if flags.get(i).copied().unwrap_or(false) && i + 1 < ls.len() {
+                                let arg = Nested { w: &w, inner: text(&ls[i]), outer: text(&ls[i + 1]) };
+                                LogWriter::write(&*w, &mut DeferredNow::new(), &Record::builder().level(log::Level::Info).args(format_args!("{}", arg)).build()).unwrap();
+                                i += 2;
+                            } else {
+                                let payload = text(&ls[i]);
+                                LogWriter::write(&*w, &mut DeferredNow::new(), &Record::builder().level(log::Level::Info).args(format_args!("{}", payload)).build()).unwrap();
+                                i += 1;
+                            }
                         }
                     }).unwrap());
                 }
@@ -206,7 +234,11 @@ pub fn gen_c03(tier: &str, seed: u64) -> Vec<Vec<String>> {
         c.push(format!("MODE {mode} {pool} {msg}"));
         for t in 0..nthreads {
             let nl = r.range(3, if tier == "thorough" { 60 } else { 25 }) as usize;
-            let ls: Vec<String> = (0..nl).map(|i| hex(&line_for(t, i, *r.pick(&[8usize, 12, 20, 35, 64, 130])))).collect();
+            let recursive = r.chance(1, 3);
+            let ls: Vec<String> = (0..nl).map(|i| {
+                let h = hex(&line_for(t, i, *r.pick(&[8usize, 12, 20, 35, 64, 130])));
+                if recursive && i + 1 < nl && r.chance(1, 3) { format!("R{h}") } else { h }
+            }).collect();
             c.push(format!("THREAD {t} {}", ls.join(" ")));
         }
         c.push(spec);
